@@ -48,6 +48,7 @@ props! {
     "C05" => c05,
     "C06" => c06,
     "C07" => c07,
+    "C08" => c08,
     "C09" => c09,
     "C10" => c10,
     "C11" => c11,
